@@ -11,3 +11,14 @@ def declare(reg):
         'wf': ['self.len == len(self.textstr)', '0 <= self.pos', 'self.pos <= self.len'],
         'isa': ['Cursor'],
     }
+
+
+def _build_acursor(f):
+    from tatsu.input.textlines import TextLines
+    t = TextLines(f['textstr'], namechars=''.join(sorted(f.get('namechars') or '')), whitespace='')
+    c = t.newcursor()
+    c.goto(f['pos'])
+    return c
+
+
+BUILDERS = {'ACursor': _build_acursor}
